@@ -193,6 +193,10 @@ def build(params, symbolic):
     def h(w: str):
         n = length_of(w, N)
         if kind == "B":
+            # the same LAYOUT-rule parser instance first sees the input without layout: layout handling must not
+            # carry anything over from one parse to the next
+            sw0 = "".join([w[i] for i in range(n) if w[i] not in " \n\t"])
+            outcome(p2, sw0, len(sw0), None, True)
             a = outcome(p1, w, n, None, True)
             b = outcome(p2, w, n, None, True)
             if a != b:
